@@ -224,7 +224,7 @@ def observer_arms(d, T, validated):
         elif fam == "int":
             specs = ["{}", "{:>8}", "{:+}", "{:08}", "{:<5}|", "{:^9}"]
         elif fam == "any":
-            specs = ["{}", "{:>9}", "{:<7}|", "{:^8}"]
+            specs = ["{}", "{:>9}", "{:<7}|", "{:^8}", "{:+}", "{:06}", "{:+07}"]
         else:
             specs = ["{}", "{:.1}", "{:+}", "{:10.3}", "{:08.2}", "{:e}" if False else "{:>12}"]
         pairs = ", ".join('[format!("%s", t).enc(), format!("%s", v).enc()]' % (sp, sp) for sp in specs)
